@@ -210,4 +210,74 @@ theorem inv_finished_complete {children : Nat → List Nat} {roots : List Nat} {
   | root h => exact hi.roots _ h
   | child _ hc ih => exact hi.closed _ (hvy _ ih) _ hc
 
+/-! ### termination: every step earns one credit, credits are bounded by the reachable trees -/
+
+theorem step_credit (c : Cfg) (children : Nat → List Nat) (s s' : TSt) (a : Act)
+    (h : step c children s a = some s') : credit s' = credit s + 1 := by
+  cases a with
+  | send =>
+    simp only [step] at h
+    split at h
+    · cases h
+    · split at h
+      · cases h; simp only [credit, List.length_append, List.length_cons, List.length_nil]; omega
+      · cases h
+  | load =>
+    simp only [step] at h
+    split at h
+    · cases h
+    · rename_i id rest hin
+      split at h
+      · cases h; simp only [credit, hin, List.length_append, List.length_cons, List.length_nil]; omega
+      · cases h
+  | put k =>
+    simp only [step] at h
+    split at h
+    · cases h
+    · rename_i id rest hp
+      have hlen := (pick_spec _ _ _ _ hp).2.2
+      split at h
+      · cases h; simp only [credit, hlen, List.length_append, List.length_cons, List.length_nil]; omega
+      · cases h
+  | recv =>
+    simp only [step] at h
+    split at h
+    · rename_i id rest htodo hout
+      cases h; simp only [credit, hout, List.length_append, List.length_cons, List.length_nil]; omega
+    · cases h
+
+theorem executed_eq_credit (c : Cfg) (children : Nat → List Nat) : ∀ (acts : List Act) (s : TSt),
+    credit (runActs c children s acts) = credit s + executed c children s acts
+  | [], _ => rfl
+  | a :: as, s => by
+    simp only [runActs, executed]
+    cases hst : step c children s a with
+    | none => exact executed_eq_credit c children as s
+    | some s' =>
+      simp only []
+      rw [executed_eq_credit c children as s', step_credit c children s s' a hst]; omega
+
+theorem credit_le {children : Nat → List Nat} {roots : List Nat} {s : TSt} (hi : SInv children roots s) (l : List Nat)
+    (hl : ∀ id, Reach children roots id → id ∈ l) : credit s ≤ 4 * l.length := by
+  have hnd : (s.inq ++ s.held ++ s.outq ++ s.yielded).Nodup := by
+    rw [List.nodup_iff_count]
+    intro x
+    have := hi.cnt x
+    simp only [List.count_append]
+    split at this <;> omega
+  have hsub : ∀ x ∈ s.inq ++ s.held ++ s.outq ++ s.yielded, x ∈ l := by
+    intro x hx
+    apply hl
+    apply hi.reach
+    have hp : 0 < (s.inq ++ s.held ++ s.outq ++ s.yielded).count x := List.count_pos_iff.mpr hx
+    simp only [List.count_append] at hp
+    have := hi.cnt x
+    by_cases hv : x ∈ s.visited
+    · exact hv
+    · rw [if_neg hv] at this; omega
+  have := Rustic.Streamer.nodup_subset_length _ l hnd hsub
+  simp only [List.length_append] at this
+  simp only [credit]
+  omega
+
 end Rustic.StreamerQ
